@@ -3,6 +3,7 @@ package props
 import (
 	"bytes"
 	"fmt"
+	"strings"
 
 	"github.com/IBM/fluent-forward-go/fluent/protocol"
 	"github.com/tinylib/msgp/msgp"
@@ -125,6 +126,42 @@ func C01(c *core.Ctx) {
 		c.Rng.Read(m.Stream)
 		enc, _ := marshal(m.ToGo(c.Rng).(codecMsg))
 		c01DecodeCases(c, m, enc, "megabyte stream")
+	}
+	// messages of every mode decoded one after the other from ONE stream reader that receives one message per Read
+	// (a socket); every decoded message is kept and compared again after the last one: what a decoder returned is
+	// the caller's, not a view into the reader
+	for round := 0; round < c.N(30, 600); round++ {
+		var msgs []*gen.Msg
+		pr := &pieceReader{}
+		for k := 0; k < 3+c.Rng.Intn(3); k++ {
+			m := gen.GenMsg(c.Rng, gen.Modes[c.Rng.Intn(4)], false, false)
+			enc, obs := marshal(m.ToGo(c.Rng).(codecMsg))
+			if !strings.HasPrefix(obs, "ok") {
+				continue
+			}
+			msgs = append(msgs, m)
+			pr.pieces = append(pr.pieces, enc)
+		}
+		rd := msgp.NewReader(pr)
+		var kept []codecMsg
+		for j, m := range msgs {
+			recv := newReceiver(m.Mode)
+			var err error
+			if p := safely(func() { err = recv.DecodeMsg(rd) }); p != nil || err != nil {
+				c.Violation("judge-go", "c01-stream-kept", fmt.Sprintf("message %d of a stream was rejected: %v %v", j, p, err), nil)
+				break
+			}
+			kept = append(kept, recv)
+		}
+		c.Eval()
+		c.Hist("messages decoded from one stream reader, kept, compared after the last")
+		for j, recv := range kept {
+			if got := gen.MsgFromGo(recv).Render(true); got != msgs[j].Norm().Render(true) {
+				c.Violation("judge-go", "c01-stream-kept", fmt.Sprintf("message %d (%s) decoded from a stream is not the message that was sent once the later messages have been read from the same reader", j, msgs[j].Mode),
+					map[string]interface{}{"position": j, "mode": msgs[j].Mode, "now": trunc(got, 300), "sent": trunc(msgs[j].Norm().Render(true), 300)})
+				break
+			}
+		}
 	}
 }
 
